@@ -431,7 +431,8 @@ CleanOps(gr) ==
   \cup {CleanOp("rules", <<RuleName(i)>>, FALSE, n) : i \in Cmds(gr), n \in BOOLEAN}
 DropStmt(gr, k) == [i \in 1..(Len(gr.stmts) - 1) |-> LET s == gr.stmts[IF i < k THEN i ELSE i + 1] IN [s EXCEPT !.id = i]]
 \* variants of the manifest: statement k removed (the remaining ones renumbered) if nothing consumes its outputs
-Droppable(gr) == {k \in DOMAIN gr.stmts : (\A i \in DOMAIN gr.stmts : gr.stmts[i].dd = "") /\ \A o \in ToSet(gr.stmts[k].outs) \cup ToSet(gr.stmts[k].iouts) : o \notin Consumed(gr)}
+Droppable(gr) == {k \in DOMAIN gr.stmts : (\A i \in DOMAIN gr.stmts : gr.stmts[i].dd = "" /\ (i > k => ~gr.stmts[i].gen)) /\ \A o \in ToSet(gr.stmts[k].outs) \cup ToSet(gr.stmts[k].iouts) : o \notin Consumed(gr)}
+ToGcc(gr) == [i \in DOMAIN gr.stmts |-> IF gr.stmts[i].deps = "depfile" THEN [gr.stmts[i] EXCEPT !.deps = "gcc"] ELSE gr.stmts[i]]
 CleanGraphs(K) ==
   UNION {GraphsS(sh, {"plain", "restat", "gen", "two", "iout", "rsp", "depfile", "gcc"}, K) : sh \in {"chain2", "chain3", "fanin", "fanout", "mixed", "alias", "group", "indep", "valid", "oonly"}}
   \cup DynGraphs
@@ -440,6 +441,12 @@ FamClean(K, CH) ==
           \cup {Scn(gr, <<Build(Roots(gr), 2, 1), d, c, Build(Roots(gr), 2, 1)>>) :
                   d \in Pick(2, {x \in Changes(gr) : x.op = "del"}), c \in Pick(CH, CleanOps(gr))}
           \cup {Scn(gr, <<c, Build(Roots(gr), 2, 1)>>) : c \in Pick(2, CleanOps(gr))}
+          \* files a normal build does not leave behind: the depfile of a deps=gcc statement whose command completed
+          \* after ninja died, or whose rule was switched from depfile= to deps=gcc after the build
+          \cup {Scn(gr, <<BX(Roots(gr), 2, 1, [crash |-> [point |-> "start", n |-> n]]), c, Build(Roots(gr), 2, 1), Build(Roots(gr), 2, 1)>>) :
+                  n \in {2, 3}, c \in Pick(CH, CleanOps(gr))}
+          \cup {Scn(gr, <<Build(Roots(gr), 2, 1), [op |-> "setstmts", stmts |-> ToGcc(gr)], c, Build(Roots(gr), 2, 1), Build(Roots(gr), 2, 1)>>) :
+                  c \in Pick(CH, CleanOps(gr))}
           \cup {Scn(gr, <<Build(Roots(gr), 2, 1), [op |-> "setstmts", stmts |-> DropStmt(gr, k)], CleanOp("dead", <<>>, FALSE, n),
                            Build(<<>>, 2, 1)>>) : k \in Droppable(gr), n \in BOOLEAN} :
           gr \in CleanGraphs(K) }
